@@ -27,7 +27,7 @@ class Case:
 def run_differential(res: Result, prop: str, rng: random.Random, nprograms: int, profile: dict,
                      transforms, ninputs: int = 8, ctx_choices=(None,), min_changed: float = 0.3,
                      input_hook=None, accept_exc=(), tag: str = 'd', watchdog: float = 5.0,
-                     transformed_precondition=None):
+                     transformed_precondition=None, strict_ok: bool = False):
     """
     transforms(case, rng) -> list of (label, thunk) where thunk() returns the
     transformed Function (or raises a refusal).
@@ -123,13 +123,17 @@ def run_differential(res: Result, prop: str, rng: random.Random, nprograms: int,
                         if new_text != orig_text:
                             res.nontrivial += 1
                         continue
+                    if strict_ok and 'STRICT' in label and r[0] == 'exc' and r[1] in ('AssertionError', 'ValueError'):
+                        res.count('strict_precondition_failed')
+                        continue
                     got = genrun.show(r[1]) if r[0] == 'ok' else f'raised {r[1]}: {r[2]}'
                     res.violate({'property': prop, 'transform': label, 'args': repr(args), 'ctx': repr(ctx),
                                  'original_result': genrun.show(want), 'transformed_result': got,
                                  'problem': 'transformed program returns a different value' if r[0] == 'ok' else 'transformed program raises',
                                  'source': p.source, 'transformed': new_text,
                                  'mechanism': {'kind': 'value' if r[0] == 'ok' else 'raises', 'transform': label.split('[')[0],
-                                               'exception': r[1] if r[0] == 'exc' else None}})
+                                               'exception': r[1] if r[0] == 'exc' else None,
+                                               'derived_iter_body_writes': 'derived_iter_body_writes' in p.features}})
                     break
             if pi < 2:
                 res.sample({'program': p.source[-700:], 'inputs': len(inputs), 'transforms': [t[0] for t in tlist][:8]})
